@@ -40,15 +40,15 @@ ENV.update(GOFLAGS="-mod=mod", GOPROXY="off", GOSUMDB="off", GOTOOLCHAIN="local"
 
 # per property: (level, needs race binary too, quick count per shard, quick budget s, thorough budget s)
 PROPS = {
-    "C05": dict(level="exploration", race=False, quick_count=8000, quick_budget=40, thorough_budget=600),
-    "C06": dict(level="exploration", race=False, quick_count=40000, quick_budget=40, thorough_budget=600),
-    "C07": dict(level="fault_enumeration", race=False, quick_count=300, quick_budget=40, thorough_budget=600),
-    "C08": dict(level="exploration", race=False, quick_count=12000, quick_budget=40, thorough_budget=600),
-    "C09": dict(level="exploration", race=False, quick_count=6000, quick_budget=40, thorough_budget=600),
-    "C10": dict(level="fault_enumeration", race=True, quick_count=300, quick_budget=40, thorough_budget=600),
-    "C12": dict(level="exploration", race=False, quick_count=8000, quick_budget=40, thorough_budget=600),
-    "C13": dict(level="fault_enumeration", race=True, quick_count=200, quick_budget=40, thorough_budget=600),
-    "C18": dict(level="exploration", race=True, quick_count=5000, quick_budget=40, thorough_budget=600),
+    "C05": dict(level="exploration", race=False, quick_count=8000, quick_budget=150, thorough_budget=600),
+    "C06": dict(level="exploration", race=False, quick_count=40000, quick_budget=150, thorough_budget=600),
+    "C07": dict(level="fault_enumeration", race=False, quick_count=300, quick_budget=150, thorough_budget=600),
+    "C08": dict(level="exploration", race=False, quick_count=12000, quick_budget=150, thorough_budget=600),
+    "C09": dict(level="exploration", race=False, quick_count=6000, quick_budget=150, thorough_budget=600),
+    "C10": dict(level="fault_enumeration", race=True, quick_count=300, quick_budget=150, thorough_budget=600),
+    "C12": dict(level="exploration", race=False, quick_count=8000, quick_budget=150, thorough_budget=600),
+    "C13": dict(level="fault_enumeration", race=True, quick_count=200, quick_budget=150, thorough_budget=600),
+    "C18": dict(level="exploration", race=True, quick_count=5000, quick_budget=150, thorough_budget=600),
 }
 
 # oracles of the labelled side-cars (free-running goroutines: runtime monitoring, not schedule-replayable)
@@ -170,7 +170,7 @@ def run_workers(binary, prop, tier, seed, nshards, count, budget, extra_env=None
             races.append({"oracle": "race-detector", "detail": so[i:i + 1500], "replay": path, "race": True, "sidecar": True})
             continue
         jpath = out + ".journal"
-        if p.returncode != 0 and "fatal error:" in so and os.path.exists(jpath) and re.search(r"github\.com/koron-go/z80\.\(?\*?[A-Za-z]", so):
+        if p.returncode != 0 and "fatal error:" in so and os.path.exists(jpath) and crash_in_library(so):
             # the process died of an unrecoverable runtime error inside library code (C12: "no input makes the
             # emulator panic or hang"): the journalled scenario is the replay file
             path = os.path.join(REPLAYS, "%s-crash-%d-%d.json" % (prop, seed, sh))
@@ -207,6 +207,40 @@ def replay_sidecar(binary, path, tmpdir):
              VERIF_COUNT=str(w["count"]), VERIF_BUDGET_S=str(w["budget"]), VERIF_OUT=os.path.join(d, "o.json"), VERIF_REPLAY_DIR=d)
     p = subprocess.run([binary, "-test.run", "^TestWorker$", "-test.timeout", "0"], env=e, cwd=d, stdout=subprocess.PIPE, stderr=subprocess.STDOUT, text=True)
     return "WARNING: DATA RACE" in p.stdout
+
+
+def race_in_library(report):
+    """True when one of the two conflicting accesses of a race report happens IN library code: the top
+    frame of an access stack ("Write at ... by goroutine" / "Previous read at ...") is a function of
+    github.com/koron-go/z80 itself (not of the simulator, and not merely somewhere down the stack)."""
+    lines = report.splitlines()
+    for i, l in enumerate(lines):
+        if re.match(r"\s*(Previous )?(Write|Read|write|read|Atomic write|Atomic read|atomic write|atomic read) at 0x", l.strip(), 0) or re.match(r"^(Previous )?(Write|Read|write|read) at ", l.strip()):
+            for nxt in lines[i + 1:i + 3]:
+                f = nxt.strip()
+                if f.startswith("github.com/koron-go/z80/verifsim"):
+                    break
+                if f.startswith("github.com/koron-go/z80.") or f.startswith("github.com/koron-go/z80/internal/"):
+                    return True
+                if f:
+                    break
+    return False
+
+
+def crash_in_library(dump):
+    """True when the goroutine that died was executing library code: the first non-runtime frame of the
+    first goroutine in the dump (the running one) belongs to github.com/koron-go/z80 itself."""
+    m = re.search(r"\ngoroutine \d+ (?:gp=\S+ m=\S+(?: mp=\S+)? )?\[running[^\]]*\]:\n", dump)
+    if not m:
+        return False
+    for l in dump[m.end():].splitlines():
+        f = l.strip()
+        if not f or l.startswith("\t") or f.startswith("runtime.") or f.startswith("panic(") or f.startswith("..."):
+            continue
+        if f.startswith("github.com/koron-go/z80/verifsim"):
+            return False
+        return f.startswith("github.com/koron-go/z80.") or f.startswith("github.com/koron-go/z80/internal/")
+    return False
 
 
 def merge(results):
@@ -334,6 +368,10 @@ def _check(prop, tier, cfg, seed, t0, ev_path, tmpdir):
 
     m = merge(results)
     known, _fixed = load_known()
+    budget_stops = sum(1 for r in results if r.get("stopped_by") == "budget")
+    if tier == "quick" and budget_stops:
+        # the quick tier is a fixed set of scenarios; a worker that ran out of time did not execute all of its share
+        print("BUDGET-STOP property=%s: %d of %d workers stopped at the time budget before finishing their fixed scenario count (machine too busy?); this run explored less than a quick run normally does" % (prop, budget_stops, len(results)))
 
     # confirm every violation by replaying its minimised file in a fresh process
     confirmed, unconfirmed = [], []
@@ -347,7 +385,7 @@ def _check(prop, tier, cfg, seed, t0, ev_path, tmpdir):
                     break
             # A race-detector report has no false positives. If the report names code of the library
             # under test it is accepted even when the (uncontrolled) schedule does not reproduce it.
-            lib = re.search(r"github\.com/koron-go/z80\.\(?\*?[A-Za-z]", v["detail"] + json.load(open(v["replay"])).get("observed", ""))
+            lib = race_in_library(v["detail"] + "\n" + json.load(open(v["replay"])).get("observed", ""))
             if again or lib:
                 if not again:
                     v = dict(v, detail=v["detail"] + "\n  (not reproduced in 4 further runs of the stress configuration; accepted: the detector's report is sound and names library code)")
@@ -411,6 +449,7 @@ def _check(prop, tier, cfg, seed, t0, ev_path, tmpdir):
             "known_findings_seen": m["known_n"],
             "evaluations_in_race_binary": m.get("race_evaluations", 0),
             "components": COMPONENTS,
+            "workers_stopped_by_time_budget": budget_stops,
             "build_s": round(bt, 2),
         },
         "assumptions": ASSUMPTIONS.get(prop, []),
